@@ -111,7 +111,9 @@ def build_args(case):
 
 def dtype_eps(case) -> float:
     dt = case.get("np_dtype" if case["est"] == "numpy" else "dtype", "float64")
-    return 1.2e-7 if dt == "float32" else 2.3e-16
+    if case["est"] == "torch" and dt != "float64":
+        return 1.2e-7      # torch.fft promotes integer tensors to the default (single) precision
+    return 1.2e-7 if dt in ("float32", "float16") else 2.3e-16
 
 
 def is_int_shift(s) -> bool:
@@ -190,7 +192,8 @@ def _tol_base(case) -> float:
     if is_int_shift(s):
         if case["est"] == "numpy":
             # numpy >= 2 keeps single precision in np.fft: float32 images give a complex64 correlation
-            return TOL_EXACT_NP if case.get("np_dtype", "float64") != "float32" else 2e-3
+            # (float16 is computed in single precision too; integer dtypes are promoted to float64)
+            return TOL_EXACT_NP if case.get("np_dtype", "float64") not in ("float32", "float16") else 2e-3
         return TOL_EXACT_T if case.get("dtype", "float64") == "float64" else 2e-3
     # sub-pixel: one upsampled pixel; without upsampling the 3-point parabola's vertex lies within
     # half a pixel of the coarse peak (C13_parabola_within_half) on the side of the larger
@@ -429,7 +432,7 @@ def public(case):
     return {k: v for k, v in case.items() if not k.startswith("_")}
 
 
-def corpus_cases(histories=False):
+def corpus_cases(histories=False, kind=None):
     """regression inputs that always run first: the concrete inputs of the two defects found by
     this check (both repaired in /repo) and the seam / half-size corner cases"""
     from ..common import VERIF
@@ -439,6 +442,10 @@ def corpus_cases(histories=False):
         try:
             rp = json.loads(f.read_text())
         except Exception:  # noqa: BLE001
+            continue
+        if kind is not None or rp.get("kind") == "dtype":
+            if isinstance(rp.get("case"), dict) and rp.get("kind") == kind:
+                out.append(dict(rp["case"]))
             continue
         if isinstance(rp.get("case"), dict) and (rp.get("kind") == "history") == histories:
             c = dict(rp["case"])
@@ -1881,6 +1888,231 @@ def check_aliasing(ctx: Ctx):
 
 
 # --------------------------------------------------------------------------- entry points
+# --------------------------------------------------------------------------- round 8: the dtype the pixel values are stored in
+# The property is stated on the two IMAGES (their pixel values), not on the container type: detector counts arrive as
+# uint8 / uint16 / int16 / int32, processed stacks as float16 / float32 / float64.  The same integer VALUES are stored in
+# every dtype that holds them exactly; every clause is judged on each (shift, aligned image = reference in the requested
+# domain, swap negates) and against the float64 run on the same values.  The aligned image may come back in any dtype:
+# VALUES are compared, to the rounding of the precision the estimator computes in.
+DT_FAMILIES = {                 # value family -> (low, high, dtypes that hold every value of it exactly)
+    "counts8": (0, 255, ["uint8", "uint16", "int16", "int32", "float16", "float32", "float64"]),
+    "signed11": (-1000, 1000, ["int16", "int32", "float16", "float32", "float64"]),      # background-subtracted counts
+    "counts16": (0, 60000, ["uint16", "int32", "float32", "float64"]),
+}
+NP_DTYPES = ["uint8", "uint16", "int16", "int32", "float16", "float32", "float64"]
+T_DTYPES = ["uint8", "uint16", "int16", "int32", "float32", "float64"]     # torch.fft has no float16 kernels on the CPU
+IMG_RTOL = {"exact": 1e-9, "single": 1e-4}     # aligned-image values, relative to max |reference| (measured: 4e-15 / 6e-8)
+
+
+def counts_image(seed: int, M: int, N: int, family: str) -> np.ndarray:
+    """integer-valued image (float64 container): smooth periodic blobs + per-pixel integer noise (unique
+    correlation peak: no translate reproduces the noise), values inside the family's range"""
+    lo, hi, _ = DT_FAMILIES[family]
+    g = np.random.default_rng(seed)
+    x = np.arange(M)[:, None]
+    y = np.arange(N)[None, :]
+    im = np.zeros((M, N))
+    for _ in range(5):
+        cx, cy = g.uniform(0, M), g.uniform(0, N)
+        w = g.uniform(1.5, 3.5)
+        dx = (x - cx + M / 2) % M - M / 2
+        dy = (y - cy + N / 2) % N - N / 2
+        im += g.uniform(0.3, 1.0) * np.exp(-(dx ** 2 + dy ** 2) / (2 * w * w))
+    span = hi - lo
+    im = np.floor(im / im.max() * 0.75 * span) + g.integers(0, int(0.25 * span) + 1, size=(M, N))
+    return np.clip(im + lo, lo, hi).astype(np.float64)
+
+
+def dt_single(case, dt=None) -> bool:
+    """does the estimator compute in single precision for this storage dtype?"""
+    dt = dt or case["dt"]
+    return dt in ("float16", "float32") if case["est"] == "numpy" else dt != "float64"
+
+
+def dt_run(case, ref64, im64, dt, rsi=None):
+    """the estimator on the values of (ref64, im64) stored as dtype `dt`; same conventions as run_est"""
+    rsi = case.get("rsi", False) if rsi is None else rsi
+    same = im64 is ref64
+    try:
+        if case["est"] == "numpy":
+            from quantem.core.utils.imaging_utils import cross_correlation_shift
+            a = ref64.astype(dt)
+            b = a if same else im64.astype(dt)
+            assert np.array_equal(a.astype(np.float64), ref64) and np.array_equal(b.astype(np.float64), im64)
+            with np.errstate(all="ignore"):
+                out = cross_correlation_shift(a, b, upsample_factor=case["up"], max_shift=case.get("ms"),
+                                              return_shifted_image=rsi, fft_output=bool(rsi and case.get("fft_out")))
+            if rsi:
+                return [float(out[0][0]), float(out[0][1])], np.asarray(out[1]), None
+            return [float(out[0]), float(out[1])], None, None
+        import torch
+        from quantem.core.utils import imaging_utils as iu
+        td = getattr(torch, dt)
+        a = torch.tensor(ref64).to(td)
+        b = a if same else torch.tensor(im64).to(td)
+        assert np.array_equal(a.to(torch.float64).numpy(), ref64) and np.array_equal(b.to(torch.float64).numpy(), im64)
+        M, N = ref64.shape
+        if case.get("mode", "real") == "real":
+            r = iu.cross_correlation_shift_torch(a, b, upsample_factor=case["up"])
+            return [float(r[0]), float(r[1])], None, None
+        Fa = torch.fft.fft2(a)
+        r = iu.align_images_fourier_torch(Fa, Fa if b is a else torch.fft.fft2(b), case["up"])
+        return [circ(float(r[0]), M), circ(float(r[1]), N)], None, None
+    except AssertionError:
+        raise
+    except Exception as e:  # noqa: BLE001
+        return [float("nan"), float("nan")], None, "%s: %s" % (type(e).__name__, str(e)[:200])
+
+
+def dtype_case(case):
+    """[(key, message)] for every clause that fails when the values of the case are stored as case['dt']"""
+    M, N, dt = case["M"], case["N"], case["dt"]
+    ref = counts_image(case["seed"], M, N, case["family"])
+    im = apply_shift(ref, case["shift"])
+    if case.get("alias") and np.array_equal(ref, im):
+        im = ref
+    oc = dict(case)
+    oc["np_dtype" if case["est"] == "numpy" else "dtype"] = dt
+    res, img, raised = dt_run(oc, ref, im, dt)
+    res_swap, _, raised_sw = dt_run(oc, im, ref, dt, rsi=False)
+    if raised or raised_sw:
+        oc["_raised"] = raised or ("(images swapped) " + raised_sw)
+    cls = up_class(case)
+    tag = "%s-dtype-%s" % (cls, dt)
+    where = "[%s pixel values in %s stored as %s, shape %s, shift %s, upsample_factor %d%s]" % (
+        case["family"], list(DT_FAMILIES[case["family"]][:2]), dt, (M, N), case["shift"], case["up"],
+        (", max_shift %r" % case["ms"]) if case.get("ms") else "")
+    bad = [("%s-dtype-%s" % (k, dt), "%s %s" % (where, m)) for k, m in oracle(oc, ref, im, res, None, res_swap)]
+    case["_res"], case["_swap"] = res, res_swap
+    if bad:
+        return bad
+    tol = tol_for(oc)
+    rtol = IMG_RTOL["single" if dt_single(case) else "exact"]
+    F_ref = np.fft.fft2(ref)
+
+    def image_values(got):
+        """(values as complex/float64 array, what it is compared with, scale) or None when the type is wrong"""
+        if got is None:
+            return None
+        got = np.asarray(got)
+        if got.shape != (M, N) or (not case.get("fft_out") and np.iscomplexobj(got)) or got.dtype.kind not in "biufc":
+            return None
+        if case.get("fft_out"):
+            return got.astype(np.complex128), F_ref, float(np.abs(F_ref).max())
+        return got.astype(np.float64), ref, max(float(np.abs(ref).max()), 1.0)
+
+    vals = None
+    if case.get("rsi"):
+        vals = image_values(img)
+        if vals is None:
+            bad.append((tag + "-aligned-image-type", "%s the aligned image is not a %s array of the image shape"
+                        % (where, "complex" if case.get("fft_out") else "real")))
+        else:
+            got, want, scale = vals
+            d = float(np.abs(got - want).max())
+            if not d <= rtol * scale:
+                i = np.unravel_index(int(np.argmax(np.abs(got - want))), got.shape)
+                bad.append((tag + "-aligned-image-differs-from-reference",
+                            "%s the returned shift %s is the applied translation, but the aligned image (%s, returned as %s) "
+                            "differs from the reference by %.3g (allowed %.3g) on %d of %d samples, e.g. at %s: %r instead of %r"
+                            % (where, res, "spectrum" if case.get("fft_out") else "real space", np.asarray(img).dtype, d,
+                               rtol * scale, int((np.abs(got - want) > rtol * scale).sum()), got.size,
+                               tuple(int(v) for v in i), got[i].item(), want[i].item())))
+    # the same values as float64: same shift, same aligned image
+    if dt != "float64":
+        b_res, b_img, b_raised = dt_run(oc, ref, im, "float64")
+        if not b_raised and all(math.isfinite(v) for v in b_res):
+            b_tol = tol_for(dict(oc, **{"np_dtype" if case["est"] == "numpy" else "dtype": "float64"}))
+            dsh = max(abs(circ(res[0] - b_res[0], M)), abs(circ(res[1] - b_res[1], N)))
+            if dsh > tol + b_tol:
+                bad.append((tag + "-shift-differs-from-float64",
+                            "%s returned %s, the same values as float64 give %s" % (where, res, b_res)))
+            if vals is not None and b_img is not None:
+                got, _, scale = vals
+                d = float(np.abs(got - np.asarray(b_img)).max())
+                if not d <= rtol * scale:
+                    bad.append((tag + "-aligned-image-differs-from-float64",
+                                "%s the aligned image differs by %.3g (allowed %.3g) from the one the same values give "
+                                "as float64" % (where, d, rtol * scale)))
+    return bad
+
+
+def gen_dtype_cases(ctx: Ctx):
+    r = ctx.rng
+    cases = []
+
+    def one(est, dt, kind, **kw):
+        M, N = r.choice(SHAPES)
+        fam = r.choice([f for f, (_, _, dts) in DT_FAMILIES.items() if dt in dts])
+        if kind == "zero":
+            s = [0.0, 0.0]
+        elif kind == "half-size":
+            s = [float(M // 2), float(r.randint(0, N - 1))] if r.random() < 0.5 else [float(r.randint(0, M - 1)), float((N + 1) // 2)]
+        else:
+            s = [float(r.randint(-M, 2 * M)), float(r.randint(-N, 2 * N))]          # incl. beyond half the size / the cell
+            if s[0] % M == 0 and s[1] % N == 0:
+                s[0] += 1.0
+        c = {"est": est, "dt": dt, "family": fam, "seed": r.randrange(1 << 30), "M": M, "N": N, "up": r.choice(UPS),
+             "shift": s, "kind": kind}
+        if kind == "zero" and c["seed"] % 2 == 0:
+            c["alias"] = True
+        c.update(kw)
+        return c
+
+    # every (estimator, dtype, identical | integer translate, output domain / entry point) once, then a random stream
+    for dt in NP_DTYPES:
+        for kind in ("zero", "int"):
+            cases.append(one("numpy", dt, kind, rsi=True, fft_out=False))
+            cases.append(one("numpy", dt, kind, rsi=True, fft_out=True))
+    for dt in T_DTYPES:
+        for kind in ("zero", "int"):
+            for mode in ("real", "fourier"):
+                cases.append(one("torch", dt, kind, mode=mode))
+    for _ in range(ctx.budget(110, 2000)):
+        est = r.choice(["numpy", "numpy", "torch"])
+        dt = r.choice(NP_DTYPES if est == "numpy" else T_DTYPES)
+        c = one(est, dt, r.choice(["int", "int", "int", "zero", "half-size"]))
+        if est == "numpy":
+            c["rsi"] = r.random() < 0.75
+            c["fft_out"] = c["rsi"] and r.random() < 0.35
+            if r.random() < 0.25:
+                c["ms"] = pick_max_shift(r, c)
+        else:
+            c["mode"] = r.choice(["real", "real", "fourier"])
+        cases.append(c)
+    return cases
+
+
+def check_dtypes(ctx: Ctx):
+    import torch
+    nbad = 0
+    cases = corpus_cases(kind="dtype") + gen_dtype_cases(ctx)
+    worst = {}
+    for case in cases:
+        if case["est"] == "torch" and not hasattr(torch, case["dt"]):
+            ctx.dist("dtype/torch/%s/not-in-this-torch" % case["dt"])
+            continue
+        bad = dtype_case(case)
+        ctx.dist("dtype/%s/%s" % (case["est"], case["dt"]))
+        ctx.dist("dtype-values/%s" % case["family"])
+        ctx.dist("dtype-shift/%s" % case["kind"])
+        if case["est"] == "numpy":
+            ctx.dist("dtype-call/numpy/r%s%s%s" % ("+img" if case.get("rsi") else "", "(F)" if case.get("fft_out") else "",
+                                                    ("+max_shift-" + case.get("ms_kind", "room")) if case.get("ms") else ""))
+        else:
+            ctx.dist("dtype-call/torch/%s" % case.get("mode", "real"))
+        ctx.count(("dtype", json.dumps(public(case), sort_keys=True)), nontrivial=True)
+        for key, msg in bad:
+            nbad += 1
+            ctx.violation(key, msg, {"kind": "dtype", "case": public(case), "returned": case.get("_res"),
+                                     "swapped": case.get("_swap")})
+    if cases:
+        c = next((c for c in cases if c["est"] == "numpy" and c.get("rsi") and c["dt"] in ("uint16", "int16")), cases[0])
+        ctx.sample({"kind": "dtype", "case": public(c), "returned": c.get("_res"), "swapped": c.get("_swap")})
+    ctx.log("storage dtypes (uint8 / uint16 / int16 / int32 / float16 / float32 / float64 holding the same values): "
+            "%d cases, %d failed clauses" % (len(cases), nbad))
+
+
 def run(ctx: Ctx):
     ctx.hash_sources("core/utils/imaging_utils.py",
                      ["dft_upsample", "cross_correlation_shift", "cross_correlation_shift_torch",
@@ -1934,7 +2166,18 @@ def run(ctx: Ctx):
         "oracle stream, the every-factor block, the identical-window block and the correspondence cases, identical images are "
         "handed over as ONE object when the image seed is even and as an equal copy when it is odd (input_distribution "
         "oracle/identical/..., every-factor/.../same-object, alias/...); the fixed identical-image grid (10 shapes x 7 factors) and the "
-        "every-factor block now request the aligned image (real / Fourier output alternating).")
+        "every-factor block now request the aligned image (real / Fourier output alternating). Round 8: the DTYPE the pixel values "
+        "are stored in (check_dtypes, 162 cases per quick run = 12 % of the evaluations, 2052 thorough): integer-valued count images "
+        "(periodic blobs + per-pixel integer noise) of three value families - 0..255, -1000..1000, 0..60000 - stored in every dtype "
+        "that holds the values exactly: uint8 / uint16 / int16 / int32 / float16 / float32 / float64 NumPy arrays and uint8 / uint16 / "
+        "int16 / int32 / float32 / float64 torch tensors (real and Fourier entry point); identical images (one object or an equal "
+        "copy), integer translations anywhere in [-n, 2n], half the size; every factor in {1,2,3,4,8,16,64}; NumPy calls with the "
+        "aligned image in real space (55 %) or as a spectrum (25 %), max_shift in 25 %; every (library, dtype, identical | "
+        "translated, output domain | entry point) at least once. Judged per case: returned shift = applied translation, rolling the "
+        "second image by it reproduces the first, swapped call negates, aligned image = reference in VALUE in the requested domain "
+        "(whatever dtype comes back; 1e-9 of max |reference| when computed in float64, 1e-4 when computed in single precision), and "
+        "shift and aligned image agree with the float64 run on the same values (input_distribution dtype/..., dtype-values/..., "
+        "dtype-shift/..., dtype-call/...).")
     ctx.assumptions += [
         "numpy.fft / torch.fft compute the DFT (fft2/ifft2) to float precision; np.roll is an exact circular shift",
         "the upsampled window values are an oracle input of the model (captured from the implementation); what is "
@@ -1970,6 +2213,11 @@ def run(ctx: Ctx):
         "them: arguments that are the same object, views of one buffer or overlapping windows of one buffer are inside the "
         "quantifier, and every clause is judged on them with the same tolerances as on separate arrays; 'the inputs are not "
         "modified' is judged only through a later registration that uses one of them (its shift / aligned image)",
+        "the property is stated on pixel VALUES: the same integer values stored as uint8 / uint16 / int16 / int32 / float16 / "
+        "float32 / float64 are the same image; an aligned image may be returned in any numeric dtype and is compared by value to the "
+        "rounding of the precision the estimator computes in (NumPy: float16 / float32 inputs in single precision, integer dtypes "
+        "promoted to float64; torch: everything but float64 in single precision); torch.fft has no float16 kernels on the CPU, so "
+        "float16 tensors are outside what the torch estimators accept",
         "hypotheses of the round-3 theorems that are premises on the image content, not checked on inputs: no_self_overlap "
         "(no integer translate reproduces the image) and np_/t_offsets_distinct (no translate by the sub-pixel offset of a "
         "non-centre window sample reproduces it); re additive / positive / definite and E unit-modulus are satisfiable "
@@ -2006,7 +2254,8 @@ def run(ctx: Ctx):
     geom_vals = check_coordinates(ctx)
     check_every_factor(ctx, geom_vals)
     check_correspondence(ctx)
-    check_aliasing(ctx)       # last: draws from ctx.rng after every earlier stage (their streams are unchanged)
+    check_aliasing(ctx)       # draws from ctx.rng after every earlier stage (their streams are unchanged)
+    check_dtypes(ctx)         # round 8, last for the same reason
 
 
 def replay(ctx: Ctx, path):
@@ -2034,9 +2283,10 @@ def replay(ctx: Ctx, path):
         if not bad:
             print("property holds for every call of this case")
         return 1 if bad else 0
-    if rp.get("kind") in ("caller", "variant"):
+    if rp.get("kind") in ("caller", "variant", "dtype"):
         print("case:", case)
-        bad = CALLERS[case["caller"]](dict(case)) if rp["kind"] == "caller" else variant_case(dict(case))
+        bad = (CALLERS[case["caller"]](dict(case)) if rp["kind"] == "caller" else
+               variant_case(dict(case)) if rp["kind"] == "variant" else dtype_case(dict(case)))
         for k, msg in bad:
             print("FAILS [%s]: %s" % (k, msg))
         if not bad:
